@@ -187,6 +187,7 @@ def _stmts_inner(draw, ctx, depth, helper_params, n, out, prof):
             kinds += ["break", "continue"]
         if prof.get("exits", True) and ctx.flow_idx < ctx.nhelpers:
             kinds += ["return", "abort"]
+        kinds += [b for b in prof.get("boost", []) if b in kinds]
         k = draw(st.sampled_from(kinds))
         if k == "wait":
             out.append(draw(_wait(ctx)))
